@@ -64,13 +64,18 @@ func caps(labelOps, lineOps []logql.BinOp) logqlengine.QuerierCapabilities {
 }
 
 func evalLogOn(eng *logqlengine.Engine, query string, startNS, endNS int64, limit int) (res logResult) {
+	return evalLogStep(eng, query, startNS, endNS, time.Second, limit)
+}
+
+// evalLogStep: as evalLogOn with the step of the request (0 = none given: still a range query when start != end).
+func evalLogStep(eng *logqlengine.Engine, query string, startNS, endNS int64, step time.Duration, limit int) (res logResult) {
 	defer func() {
 		if p := recover(); p != nil {
 			res.Panic = fmt.Sprint(p)
 		}
 	}()
 	data, err := eng.Eval(context.Background(), query, logqlengine.EvalParams{
-		Start: otelstorage.Timestamp(startNS), End: otelstorage.Timestamp(endNS), Step: time.Second, Limit: limit,
+		Start: otelstorage.Timestamp(startNS), End: otelstorage.Timestamp(endNS), Step: step, Limit: limit,
 	})
 	if err != nil {
 		res.Err = err.Error()
